@@ -250,8 +250,13 @@ class Driver:
         FakeTimer.armed = []
         self.pers_started = False
 
+    def _seen(self):
+        """What an event callback can see of the network: the tree, and per node the reboot flag and the desired values (not the
+        hold queues: replies are routed after the handler has returned)."""
+        return json.dumps([self._tree(), [t[:3] for t in self._trans()]], sort_keys=True)
+
     def _callback(self, msg):
-        seen = json.dumps(self._tree(), sort_keys=True)
+        seen = self._seen()
         self.cb_log.append((self._msg_fields(msg), seen))
         if self.raising_cb:
             raise RuntimeError("callback raises (harness)")
@@ -416,7 +421,7 @@ class Driver:
         ev["out"] = [self._cmd(x) for x in self.tr.log]
         ev["rawout"] = list(self.tr.log)
         ev["outp"] = [describe(ref_parse_cmd(x)[2] if isinstance(x, str) else "", self.I) for x in self.tr.log]
-        post_tree = json.dumps(self._tree(), sort_keys=True)
+        post_tree = self._seen()
         ev["cb"] = [f + [1 if seen == post_tree else 0] for f, seen in self.cb_log]
         ev["haswire"] = self.real_link
         ev["linkup"] = self.linkup
